@@ -588,9 +588,6 @@ func ruleLengthGuarded(c *Check, rule string) {
 				if _, isConst := constInt(size); isConst {
 					// fixed-size read: needs remaining >= const
 					rem := "(len(" + x + ") - " + lo + ")"
-					if x == "param:data" {
-						rem = "(len(param:data) - " + lo + ")"
-					}
 					n++
 					okc := e.State.RelOf("int", rem, size)&LT == 0 || e.State.RelOf("int", strings.Replace(rem, "len("+x+")", "len("+x+")", 1), size)&LT == 0
 					if !okc {
